@@ -171,6 +171,25 @@ struct vchar_iterator _ZNSt6vectorIcSaIcEE5eraseEN9__gnu_cxx17__normal_iteratorI
 /* std::transform(first, last, out, int(*)(int)) over the characters of one string: the characters change, the length does not */
 struct str_iterator _ZSt9transformIN9__gnu_cxx17__normal_iteratorIPcNSt7__cxx1112basic_stringIcSt11char_traitsIcESaIcEEEEES9_PFiiEET0_T_SD_SC_T1_(struct str_iterator first, struct str_iterator last, struct str_iterator out, void *fn)
 { (void)fn; __CPROVER_assert(ITER_IDX(&first) <= ITER_IDX(&last), "std::transform: [first, last) is a valid range"); struct str_iterator r; ITER_IDX(&r) = ITER_IDX(&out) + (ITER_IDX(&last) - ITER_IDX(&first)); return r; }
+/* std::vector<char>: constructors, push_back, clear, erase(first, last), range constructor */
+void _ZNSt6vectorIcSaIcEEC1Ev(struct vec_char *this) { SZ(this) = 0; CW(this, 0) = 0; }
+void _ZNSt6vectorIcSaIcEEC1EmRKcRKS0_(struct vec_char *this, unsigned long n, const char *c, const void *a) { (void)c; (void)a; SZ(this) = n; CW(this, 0) = __g2c_nondet_ulong(); }
+void _ZNSt6vectorIcSaIcEEC1EmRKS0_(struct vec_char *this, unsigned long n, const void *a) { (void)a; SZ(this) = n; CW(this, 0) = 0; }
+void _ZNSt6vectorIcSaIcEE9push_backEOc(struct vec_char *this, char *c) { (void)c; LIVE(this, 24, "std::vector<char>::push_back"); __CPROVER_assume(SZ(this) < MAXLEN); SZ(this) = SZ(this) + 1; CW(this, 0) = __g2c_nondet_ulong(); }
+void _ZNSt6vectorIcSaIcEE5clearEv(struct vec_char *this) { LIVE(this, 24, "std::vector<char>::clear"); SZ(this) = 0; CW(this, 0) = 0; }
+void _ZNSt6vectorIcSaIcEEC1IN9__gnu_cxx17__normal_iteratorIPcS1_EEvEET_S7_RKS0_(struct vec_char *this, struct vchar_iterator first, struct vchar_iterator last, const void *a)
+{ (void)a; __CPROVER_assert(ITER_IDX(&first) <= ITER_IDX(&last), "std::vector<char>(first, last): [first, last) is a valid range"); SZ(this) = ITER_IDX(&last) - ITER_IDX(&first); CW(this, 0) = __g2c_nondet_ulong(); }
+struct vchar_iterator _ZNSt6vectorIcSaIcEE5eraseEN9__gnu_cxx17__normal_iteratorIPKcS1_EES6_(struct vec_char *this, struct vchar_citerator first, struct vchar_citerator last)
+{ struct vchar_iterator it; LIVE(this, 24, "std::vector<char>::erase(range)"); __CPROVER_assert(ITER_IDX(&first) <= ITER_IDX(&last) && ITER_IDX(&last) <= SZ(this), "std::vector<char>::erase(first, last): a valid range of this vector");
+  SZ(this) = SZ(this) - (ITER_IDX(&last) - ITER_IDX(&first)); CW(this, 0) = __g2c_nondet_ulong(); ITER_IDX(&it) = ITER_IDX(&first); return it; }
+/* void assign(first, last) from a string's characters */
+void _ZNSt6vectorIcSaIcEE6assignIN9__gnu_cxx17__normal_iteratorIPcNSt7__cxx1112basic_stringIcSt11char_traitsIcES0_EEEEvEEvT_SC_(struct vec_char *this, struct str_iterator first, struct str_iterator last)
+{ LIVE(this, 24, "std::vector<char>::assign(range)"); __CPROVER_assert(ITER_IDX(&first) <= ITER_IDX(&last), "std::vector<char>::assign: [first, last) is a valid range"); SZ(this) = ITER_IDX(&last) - ITER_IDX(&first); CW(this, 0) = __g2c_nondet_ulong(); }
+#ifdef G2C_HAVE_Value
+/* Value::Value(TabChar*) : takes ownership of a byte buffer */
+void _ZN4bloc5ValueC1EPSt6vectorIcSaIcEE(struct Value *this, struct vec_char *v)
+{ this->_type._vptr_Type = 0; this->_type._major = 6; this->_type._minor = 0; this->_type._level = 0; this->_flags = v ? 1 : 0; this->_value.p = v; }
+#endif
 /* end(), insert(pos, value), insert(pos, first, last): positions up to size() are valid; the range [first, last) is read from another container */
 struct vchar_iterator _ZNSt6vectorIcSaIcEE3endEv(struct vec_char *this) { struct vchar_iterator it; LIVE(this, 24, "std::vector<char>::end"); ITER_IDX(&it) = SZ(this); return it; }
 struct str_iterator _ZNSt7__cxx1112basic_stringIcSt11char_traitsIcESaIcEE3endEv(struct std_string *this) { struct str_iterator it; LIVE(this, 32, "std::string::end"); ITER_IDX(&it) = SZ(this); return it; }
